@@ -215,11 +215,13 @@ func (w *world) awaitRestored(dir string, watchdog time.Duration) (int, bool) {
 	if dir == "outbound" {
 		get = w.node.Utp.GetOutboundPermit
 	}
-	deadline := time.Now().Add(watchdog)
+	start := time.Now()
+	deadline := start.Add(watchdog)
 	last := -1
 	for {
 		last = obtainable(get, w.limit)
 		if last == w.limit {
+			w.r.Max("max_seconds_until_slots_restored_"+dir, int(time.Since(start).Seconds()))
 			return last, true
 		}
 		if time.Now().After(deadline) {
@@ -283,8 +285,8 @@ func outboundPaths(r *lib.Run, idx, limit int) {
 			_ = err
 		}
 		wd := 12 * time.Second
-		if mode == "accept-ignore" || mode == "accept-reset" {
-			wd = 45 * time.Second // the code's own 15 s dial / write timeouts
+		if mode == "accept-ignore" || mode == "accept-reset" || mode == "accept-serve" {
+			wd = 150 * time.Second // the code's own 15 s dial + 60 s write timeouts, twice over
 		}
 		w.verdict("offer:"+mode, "outbound", wd, nil)
 	}
@@ -355,7 +357,7 @@ func inboundPaths(r *lib.Run, idx, limit int) {
 		{"garbage-stream", func(p *peer, c uint16, n int) { _ = stream(p, c, []byte{0xff, 0xff, 0xff, 0xff, 0x7f, 1, 2, 3}, false) }, 12 * time.Second},
 		{"wrong-item-count", func(p *peer, c uint16, n int) { _ = stream(p, c, portalwire.VerifEncodeContents(items(n+1)), false) }, 12 * time.Second},
 		{"dialled-and-closed", func(p *peer, c uint16, n int) { _ = stream(p, c, nil, true) }, 100 * time.Second}, // the code's own 60 s read timeout
-		{"never-dialled", func(p *peer, c uint16, n int) {}, 50 * time.Second}, // the code's own 15 s accept timeout
+		{"never-dialled", func(p *peer, c uint16, n int) {}, 60 * time.Second}, // the code's own 15 s accept timeout
 	}
 	for _, sc := range scens {
 		if limit == 0 {
@@ -465,7 +467,7 @@ func gossipPaths(r *lib.Run, idx, limit int) {
 	}
 	r.Count("gossip_offers_reaching_peers", int(seen))
 	r.Count(fmt.Sprintf("gossip_offers_reaching_peers_limit_%d", limit), int(seen))
-	w.verdict("gossip:mixed-outcomes", "outbound", 45*time.Second, map[string]any{"offers_seen_by_peers": seen})
+	w.verdict("gossip:mixed-outcomes", "outbound", 150*time.Second, map[string]any{"offers_seen_by_peers": seen})
 }
 
 // queueFull: more gossip than the offer queue holds while every worker is blocked on a silent peer.
@@ -522,8 +524,8 @@ func stopPaths(r *lib.Run, idx int) {
 	r.Max("offers_queued_at_stop", q)
 	w.protocolStopped = true
 	w.node.P.Stop() // only the protocol: the uTP service and discv5 keep running, as for the other sub-protocols of a node
-	w.verdict("stop:offers-queued-and-in-progress", "outbound", 45*time.Second, map[string]any{"queued_at_stop": q})
-	w.verdict("stop:inbound-side", "inbound", 45*time.Second, nil)
+	w.verdict("stop:offers-queued-and-in-progress", "outbound", 150*time.Second, map[string]any{"queued_at_stop": q})
+	w.verdict("stop:inbound-side", "inbound", 150*time.Second, nil)
 }
 
 func run(r *lib.Run) {
@@ -531,7 +533,7 @@ func run(r *lib.Run) {
 	r.SetRule("fault enumeration over the exit paths of an offer. Outbound (node offers to a scripted peer, permit taken through the node's own controller): peer declines, empty reply, wrong code, undecodable accept, wrong verdict count, accepted+served, accepted then connection closed at once, accepted but nobody listens on the announced id, silent peer; " +
 		"gossip rounds to 8 peers with mixed outcomes (bound on simultaneously open exchanges), gossip beyond the offer-queue capacity with every worker blocked, Stop() with offers queued and in progress. Inbound (scripted peers offer, all slots taken at once by different peers): success, garbage stream, wrong item count, dialled and closed, never dialled, limit 0. Limits 0, 1, 2, 50 (+1400 / 300 for the queue and stop paths). " +
 		"distinct_nontrivial = distinct (direction, path, limit) whose quiescent slot count was measured")
-	r.Assume("quiescence = the scenario's own activity has ceased and the code's own timeouts (15 s accept/dial, idle timeout shortened to 4 s through the verif uTP config) have had 3x their time; not restored within the watchdog is a leak")
+	r.Assume("quiescence = the scenario's own activity has ceased and the code's own timeouts (15 s accept/dial, 60 s read/write; uTP idle timeout shortened to 4 s through the verif config) have had about twice their sum; not restored within the watchdog is a leak")
 	r.Assume("slots are counted by acquiring through the exported GetInboundPermit/GetOutboundPermit until refusal and releasing again")
 	limits := []int{0, 1, 2, 50}
 	if !r.Quick() {
